@@ -184,6 +184,31 @@ def scoping_templates():
     out.append([fact, wrap, LET("r0", C("w", [I(5)])),
                 FN("sh", [P("n", "int")], "int", C("fact2", [V("n")]), decls=[FN("fact2", [P("q", "int")], "int", OP("sub", I(0), V("q")))]),
                 LET("r1", C("sh", [I(4)])), LET("r2", C("fact", [I(4)]))])
+    # an outer callable VARIABLE is used as a value, then shadowed by a local function of the same name, then the name
+    # is used as a value again (and called): every use denotes the nearest preceding declaration
+    lam1 = {"k": "lam", "ps": [P("v", "int")], "decls": [], "rty": "int", "ret": OP("add", V("v"), I(1))}
+    CV = lambda f, a: {"k": "callv", "fe": f, "args": [a]}
+    for use_before, use_mid in ((True, True), (True, False), (False, True)):
+        inner = []
+        if use_before:
+            inner.append(LET("before", V("step")))
+        inner.append(FN("step", [P("v", "int")], "int", OP("mul", V("v"), I(100))))
+        inner.append(LET("after", V("step")))
+        if use_mid:
+            inner.append(LET("mapped", C("map_arr", [{"k": "arr", "items": [I(1), I(2)]}, V("step")])))
+        ret = OP("add", OP("mul", CV(V("after"), V("k")), I(10000)), C("step", [V("k")]))
+        if use_before:
+            ret = OP("add", ret, OP("mul", CV(V("before"), V("k")), I(1000000)))
+        if use_mid:
+            ret = OP("add", ret, C("get", [V("mapped"), I(1)]))
+        out.append([LET("step", lam1), LET("r_outer", CV(V("step"), I(5))), FN("scale", [P("k", "int")], "int", ret, decls=inner),
+                    LET("r0", C("scale", [I(2)])), LET("r1", CV(V("step"), I(7)))])
+    # the same with a let shadowing a captured outer function value, and a parameter shadowing it one level further in
+    out.append([FN("base", [P("v", "int")], "int", OP("add", V("v"), I(1))),
+                FN("scale", [P("k", "int")], "int", OP("add", OP("mul", CV(V("f0"), V("k")), I(1000)), CV(V("f1"), V("k"))),
+                   decls=[LET("f0", V("base")), LET("base", {"k": "lam", "ps": [P("v", "int")], "decls": [], "rty": "int", "ret": OP("mul", V("v"), I(7))}),
+                          LET("f1", V("base"))]),
+                LET("r0", C("scale", [I(3)])), LET("r1", C("base", [I(3)]))])
     return [{"id": "scope%d" % i, "decls": d, "calls": [], "lim": dict(NOLIM)} for i, d in enumerate(out)]
 
 
